@@ -38,6 +38,18 @@ import traceback
 
 FILE_TYPE_ALIASES = {"oracle.rs": {"Date": "OracleDate", "SqlDate": "Date"}}
 
+# Named-field structs that are mapped onto a structure of the model: Rust name -> (Lean structure, expected fields).
+# A struct whose declaration differs from this is not translated (every function using it degrades).
+STRUCT_MAP = {
+    "NaiveDateTime": ("SqlDt.NDT", [("year", "i32"), ("month", "u32"), ("day", "u32"), ("hour", "u32"), ("minute", "u32"),
+                                    ("sec", "u32"), ("usec", "u32"), ("ampm", "Option<AmPm>"), ("negative", "bool")]),
+}
+# Two-variant enums without discriminants that the model represents by a Bool: name -> {variant: Lean term}
+ENUM_AS_BOOL = {"AmPm": {"Am": "false", "Pm": "true"}}
+
+WL_NEWTYPES = ("Date", "Time", "Timestamp", "IntervalYM", "IntervalDT", "OracleDate")
+WL_ENUMS = ("Sign", "WeekDay", "Ordering")
+
 # enums whose `From<usize>` is checked (below) to be the identity on the discriminant
 ENUM_FROM_INT_IDENTITY = set()
 
@@ -174,6 +186,36 @@ WHITELIST = [
      "fun ts x => SqlDt.OracleDate.addDays (SqlDt.OracleDate.fromTimestamp ts) x"),
     ("oracle.rs", "Timestamp", "oracle_sub_days", "Timestamp.oracle_sub_days", "self, days: f64", "Result<OracleDate>",
      "fun ts x => SqlDt.OracleDate.subDays (SqlDt.OracleDate.fromTimestamp ts) x"),
+    # ---- the conversion layer `format::NaiveDateTime` (the model's structure `NDT`)
+    ("format.rs", "NaiveDateTime", "new", "NDT.new", "", "NaiveDateTime", "({} : SqlDt.NDT)"),
+    ("format.rs", "NaiveDateTime", "hour12", "NDT.hour12", "self", "u32", "SqlDt.NDT.hour12"),
+    ("format.rs", "NaiveDateTime", "adjust_hour12", "NDT.adjust_hour12", "self", "NaiveDateTime", "SqlDt.NDT.adjustHour12"),
+    ("date.rs", "From<Date> for NaiveDateTime", "from", "NDT.of_date", "date: Date", "NaiveDateTime", "SqlDt.NDT.ofDate"),
+    ("time.rs", "From<Time> for NaiveDateTime", "from", "NDT.of_time", "time: Time", "NaiveDateTime", "SqlDt.NDT.ofTime"),
+    ("timestamp.rs", "From<Timestamp> for NaiveDateTime", "from", "NDT.of_timestamp", "ts: Timestamp", "NaiveDateTime",
+     "SqlDt.NDT.ofTimestamp"),
+    ("interval.rs", "From<IntervalYM> for NaiveDateTime", "from", "NDT.of_interval_ym", "interval: IntervalYM",
+     "NaiveDateTime", "SqlDt.NDT.ofIntervalYM"),
+    ("interval.rs", "From<IntervalDT> for NaiveDateTime", "from", "NDT.of_interval_dt", "interval: IntervalDT",
+     "NaiveDateTime", "SqlDt.NDT.ofIntervalDT"),
+    ("oracle.rs", "From<OracleDate> for NaiveDateTime", "from", "NDT.of_oracle_date", "dt: OracleDate", "NaiveDateTime",
+     "SqlDt.NDT.ofTimestamp"),
+    ("date.rs", "TryFrom<&NaiveDateTime> for Date", "try_from", "Date.try_from_ndt_ref", "dt: NaiveDateTime", "Result<Date>",
+     "SqlDt.Parser.tryFromNDT SqlDt.Ty.D"),
+    ("date.rs", "TryFrom<NaiveDateTime> for Date", "try_from", "Date.try_from_ndt", "dt: NaiveDateTime", "Result<Date>",
+     "SqlDt.Parser.tryFromNDT SqlDt.Ty.D"),
+    ("time.rs", "TryFrom<&NaiveDateTime> for Time", "try_from", "Time.try_from_ndt_ref", "dt: NaiveDateTime", "Result<Time>",
+     "SqlDt.Parser.tryFromNDT SqlDt.Ty.T"),
+    ("time.rs", "TryFrom<NaiveDateTime> for Time", "try_from", "Time.try_from_ndt", "dt: NaiveDateTime", "Result<Time>",
+     "SqlDt.Parser.tryFromNDT SqlDt.Ty.T"),
+    ("timestamp.rs", "TryFrom<NaiveDateTime> for Timestamp", "try_from", "Timestamp.try_from_ndt", "dt: NaiveDateTime",
+     "Result<Timestamp>", "SqlDt.Parser.tryFromNDT SqlDt.Ty.TS"),
+    ("interval.rs", "TryFrom<NaiveDateTime> for IntervalYM", "try_from", "IntervalYM.try_from_ndt", "dt: NaiveDateTime",
+     "Result<IntervalYM>", "SqlDt.Parser.tryFromNDT SqlDt.Ty.YM"),
+    ("interval.rs", "TryFrom<NaiveDateTime> for IntervalDT", "try_from", "IntervalDT.try_from_ndt", "dt: NaiveDateTime",
+     "Result<IntervalDT>", "SqlDt.Parser.tryFromNDT SqlDt.Ty.DT"),
+    ("oracle.rs", "TryFrom<NaiveDateTime> for OracleDate", "try_from", "OracleDate.try_from_ndt", "dt: NaiveDateTime",
+     "Result<OracleDate>", "SqlDt.Parser.tryFromNDT SqlDt.Ty.OD"),
     # ---- date.rs
     ("date.rs", "Date", "from_ymd_unchecked", "Date.from_ymd_unchecked", YMD, "Date", "SqlDt.Date.fromYmdUnchecked"),
     ("date.rs", "Date", "try_from_ymd", "Date.try_from_ymd", YMD, "Result<Date>", "SqlDt.Date.tryFromYmd"),
@@ -396,6 +438,8 @@ class Crate(object):
         self.structs = {}   # (file, name) -> [type tokens] of a one-field tuple struct
         self.lines = {}     # file -> raw source lines
         self.broken = {}    # file -> why it could not be scanned
+        self.named_structs = {}   # (file, name) -> [(field, [type tokens])]
+        self.plain_enums = {}     # name -> [variant names] (no explicit discriminants)
         self.derives = {}   # (file, canonical struct name) -> (line, trait, trait, ...) from #[derive(..)]
 
     def fns_of_type(self, self_ty, name):
@@ -460,6 +504,27 @@ def scan_items(crate, fname, src, toks, lo, hi, impl):
                 j = k
             while j < hi and toks[j].text not in (";", "{"):
                 j += 1
+            if toks[j].text == "{":        # named fields: `pub name: Type,`
+                k = match_close(toks, j)
+                fields, q = [], j + 1
+                while q < k:
+                    while q < k and toks[q].kind == "id" and toks[q].text == "pub":
+                        q += 1
+                        if toks[q].text == "(":
+                            q = match_close(toks, q) + 1
+                    if q + 1 < k and toks[q].kind == "id" and toks[q + 1].text == ":":
+                        r, depth = q + 2, 0
+                        while r < k and not (toks[r].text == "," and depth == 0):
+                            if toks[r].text in ("(", "[", "<"):
+                                depth += 1
+                            elif toks[r].text in (")", "]", ">"):
+                                depth -= 1
+                            r += 1
+                        fields.append((toks[q].text, toks[q + 2:r]))
+                        q = r + 1
+                    else:
+                        q += 1
+                crate.named_structs[(fname, name)] = fields
             i = (match_close(toks, j) if toks[j].text == "{" else j) + 1
             continue
         if t.kind == "id" and t.text == "enum":
@@ -488,6 +553,9 @@ def scan_items(crate, fname, src, toks, lo, hi, impl):
                     p += 1
             if ok and variants:
                 crate.enums[name] = variants
+            else:       # an enum without discriminants: remember the variant names
+                crate.plain_enums[name] = [toks[x].text for x in range(j + 1, k)
+                                           if toks[x].kind == "id" and toks[x + 1].text in (",", "}")]
             i = k + 1
             continue
         if t.kind == "id" and t.text == "impl":
@@ -515,6 +583,7 @@ def scan_items(crate, fname, src, toks, lo, hi, impl):
             header = re.sub(r"\s*>", ">", header)
             header = re.sub(r"\s*,\s*", ", ", header)
             header = re.sub(r"\s*::\s*", "::", header)
+            header = re.sub(r"&\s+", "&", header)
             k = match_close(toks, j)
             scan_items(crate, fname, src, toks, j + 1, k, header)
             i = k + 1
@@ -554,6 +623,7 @@ def scan_items(crate, fname, src, toks, lo, hi, impl):
                 j += 1
             k = match_close(toks, j)
             params = []
+            mut_self = False
             p = j + 1
             while p < k:
                 q, depth = p, 0
@@ -568,6 +638,7 @@ def scan_items(crate, fname, src, toks, lo, hi, impl):
                     names = [x.text for x in part]
                     if "self" in names and ":" not in names:
                         params.append(("self", None))
+                        mut_self = "&" in names and "mut" in names
                     else:
                         c = names.index(":")
                         pn = [x for x in part[:c] if x.text != "mut"]
@@ -588,6 +659,7 @@ def scan_items(crate, fname, src, toks, lo, hi, impl):
             k = match_close(toks, j)
             item = FnItem(fname, impl, name, params, ret, toks[j + 1:k], t.line, src[toks[j].end:toks[k].pos])
             item.generic = generic
+            item.mut_self = mut_self
             crate.fns.setdefault((fname, impl_canon(fname, impl) if impl else None, name), item)
             i = k + 1
             continue
@@ -644,7 +716,8 @@ def load_crate(repo):
 #   ('cast', e, type) ('call', path_segments, args) ('mcall', recv, name, args) ('field', recv, name)
 #   ('index', recv, i) ('tuple', [es]) ('array', [es]) ('if', c, then_block, else_block_or_None)
 #   ('match', scrutinee, [(pat, guard, expr)]) ('block', [stmts], tail_or_None) ('return', e_or_None)
-#   ('try', e) ('macro', name) ('while', cond, block) ('float', literal text)
+#   ('try', e) ('macro', name) ('while', cond, block) ('float', literal text) ('ref', e)
+#   ('structlit', name, [(field, e)], base_or_None)
 # Statements: ('let', pat, type_or_None, init, line) ('assign', op, lhs, rhs, line) ('expr', e, line)
 #             ('const', name, type, init, line)
 # Patterns:   ('pvar', name) ('pwild',) ('ptuple', [ps]) ('plit', v) ('prange', lo, hi) ('pctor', path, [ps])
@@ -921,10 +994,13 @@ class Parser(object):
         if t.kind == "p" and t.text in ("-", "!"):
             self.i += 1
             return ("unary", t.text, self.parse_unary())
-        if t.kind == "p" and t.text in ("*", "&"):
+        if t.kind == "p" and t.text == "&":
             self.i += 1
             self.eat("mut")
-            return self.parse_unary()      # references are transparent for Copy integers
+            return ("ref", self.parse_unary())      # transparent, but `T::try_from(&x)` selects the `&` impl
+        if t.kind == "p" and t.text == "*":
+            self.i += 1
+            return self.parse_unary()
         if t.kind == "p" and t.text == "&&":
             self.i += 1
             return self.parse_unary()
@@ -1018,7 +1094,16 @@ class Parser(object):
         if t.text == "if":
             self.i += 1
             if self.at("let"):
-                self.fail("if let")
+                # `if let PAT = e { a } else { b }`  =  `match e { PAT => a, _ => b }`
+                self.i += 1
+                pat = self.parse_pattern()
+                self.expect("=")
+                scrut = self.parse_expr(0)
+                then = self.parse_block()
+                els = ("block", [], None)
+                if self.eat("else"):
+                    els = ("block", [], self.parse_primary()) if self.at("if") else self.parse_block()
+                return ("match", scrut, [(pat, None, then), (("pwild",), None, els)])
             cond = self.parse_expr(0)
             then = self.parse_block()
             els = None
@@ -1075,6 +1160,26 @@ class Parser(object):
             if self.peek().text in ("(", "[", "{"):
                 self.i = match_close(self.toks, self.i) + 1
             return ("macro", path[-1])
+        if self.at("{") and path[-1] in STRUCT_MAP:
+            # struct literal of a mapped struct: `Name { f: e, g, ..base }`
+            self.i += 1
+            fields, base = [], None
+            while not self.at("}"):
+                if self.eat(".."):
+                    base = self.parse_expr(0)
+                    break
+                f = self.peek()
+                if f.kind != "id":
+                    self.fail("struct literal field")
+                self.i += 1
+                if self.eat(":"):
+                    fields.append((f.text, self.parse_expr(0)))
+                else:
+                    fields.append((f.text, ("path", [f.text])))
+                if not self.eat(","):
+                    break
+            self.expect("}")
+            return ("structlit", path[-1], fields, base)
         if self.at("{") and path[-1][0].isupper() and len(path[-1]) > 1 and not path[-1].isupper() \
                 and self.peek(1).kind == "id" and self.peek(2).text in (":", ",", "}"):
             self.fail("struct literal")
@@ -1116,6 +1221,7 @@ def parse_type_toks(toks):
 #   ('tuple', [es]) ('proj', e, i, n) ('lam', [names], body) ('list', [es]) ('com', comment, e)
 #   ('inl', [(param, leantype)], body, [args])   an inlined helper function, printed as an applied lambda
 #   ('imp', hypothesis, conclusion)              only in the safety predicates
+#   ('fld', e, field)  ('struct', lean type, base_or_None, [(field, e)])   named-field structs mapped onto the model's
 # Arithmetic nodes may carry one extra trailing component (the Rust type / divisor / table length) that the printer
 # ignores and the safety-predicate generator reads.
 
@@ -1172,6 +1278,13 @@ def flat(node):
         return "fun %s => %s" % (" ".join("(%s : Int)" % n for n in node[1]), flat(node[2])[0]), 0
     if k == "com":
         return flat(node[2])
+    if k == "fld":      # ('fld', e, field): structure projection
+        return wrap(node[1], 100) + "." + node[2], 100
+    if k == "struct":   # ('struct', leantype, base_or_None, [(field, e)])
+        body = ", ".join("%s := %s" % (f, flat(v)[0]) for f, v in node[3])
+        if node[2] is not None:
+            return "{ %s with %s }" % (flat(node[2])[0], body), 100
+        return "({ %s } : %s)" % (body, node[1]), 100
     if k == "inl":      # an inlined helper: (fun params => body) args
         lam = "(fun %s => %s)" % (" ".join("(%s : %s)" % (n, t) for n, t in node[1]), flat(node[2])[0])
         return lam + "".join(" " + wrap(a, 100) for a in node[3]), 90
@@ -1366,6 +1479,10 @@ def lean_type(t):
         return "Bool"
     if t == "f64":
         return "F64"
+    if isinstance(t, tuple) and t[0] == "struct":
+        return STRUCT_MAP[t[1]][0]
+    if isinstance(t, tuple) and t[0] == "boolenum":
+        return "Bool"
     if t == "unit":
         return "Unit"
     if t[0] == "tuple":
@@ -1389,7 +1506,7 @@ def type_str(t):
         return t
     if t[0] == "tuple":
         return "(" + ", ".join(type_str(x) for x in t[1]) + ")"
-    if t[0] in ("nt", "enum"):
+    if t[0] in ("nt", "enum", "struct", "boolenum"):
         return t[1]
     if t[0] in ("result", "option"):
         return "%s<%s>" % (t[0].capitalize(), type_str(t[1]) if t[1] is not None else "_")
@@ -1408,6 +1525,7 @@ class World(object):
         self.newtypes = {}                # canonical name -> inner type
         self.wl = {}                      # (impl canon or None, fn name) -> entry   ; consts: ('const', name)
         self.wl_by_type = {}              # (self type, fn name) -> entry
+        self.struct_checked = {}
         for (fname, name), toks in sorted(crate.structs.items()):
             canon = FILE_TYPE_ALIASES.get(fname, {}).get(name, name)
             try:
@@ -1450,12 +1568,52 @@ class World(object):
                 name = self_ty
             else:
                 name = FILE_TYPE_ALIASES.get(fname, {}).get(name, name)
+            if fname == "<whitelist>":
+                # the types written in the whitelist are taken as given (the declarations are checked when the
+                # source of a function is resolved), so that a vanished or changed type degrades its functions only
+                if name in WL_NEWTYPES:
+                    return ("nt", name)
+                if name in WL_ENUMS:
+                    return ("enum", name)
+                if name in STRUCT_MAP:
+                    return ("struct", name)
+                if name in ENUM_AS_BOOL:
+                    return ("boolenum", name)
             if name in self.newtypes:
                 return ("nt", name)
             if name in self.crate.enums:
                 return ("enum", name)
+            if name in STRUCT_MAP:
+                why = self.struct_problem(name)
+                if why:
+                    raise Unsupported(why)
+                return ("struct", name)
+            if name in ENUM_AS_BOOL:
+                if self.crate.plain_enums.get(name) != list(ENUM_AS_BOOL[name]):
+                    raise Unsupported("enum `%s` is no longer the two variants %s" % (name, "/".join(ENUM_AS_BOOL[name])))
+                return ("boolenum", name)
             raise Unsupported("unknown type `%s`" % name)
         raise Unsupported("type %r" % (pt,))
+
+    def struct_problem(self, name):
+        """None if the Rust declaration of a mapped struct is the expected one, else the reason."""
+        if name in self.struct_checked:
+            return self.struct_checked[name]
+        decls = [v for (f, n), v in self.crate.named_structs.items() if n == name]
+        why = None
+        if len(decls) != 1:
+            why = "struct `%s` not found" % name
+        else:
+            got = [(f, toks_text(t).replace(" ", "")) for f, t in decls[0]]
+            want = [(f, t.replace(" ", "")) for f, t in STRUCT_MAP[name][1]]
+            if got != want:
+                why = "struct `%s` is declared with other fields than the model's %s" % (name, STRUCT_MAP[name][0])
+        self.struct_checked[name] = why
+        return why
+
+    def struct_fields(self, name):
+        """field -> translator type"""
+        return dict((f, parse_wl_type(self, t)) for f, t in STRUCT_MAP[name][1])
 
     def array_size(self, toks):
         """Length of `[T; N]`: a literal or a literal-valued constant (else None)."""
@@ -1474,6 +1632,11 @@ class World(object):
         while isinstance(t, tuple) and t[0] == "nt":
             t = self.newtypes[t[1]]
         return t
+
+
+def self_type(name):
+    """The translator type of `self` in an impl of `name`."""
+    return ("struct", name) if name in STRUCT_MAP else ("nt", name)
 
 
 def parse_wl_type(world, s):
@@ -1544,6 +1707,8 @@ def assigned_vars(node, out):
     if isinstance(node, tuple):
         if node and node[0] == "assign" and node[2][0] == "path" and len(node[2][1]) == 1:
             out.add(node[2][1][0])
+        if node and node[0] == "assign" and node[2][0] == "field" and node[2][1][0] == "path" and len(node[2][1][1]) == 1:
+            out.add(node[2][1][1][0])      # `v.f = e` assigns `v`
         for x in node:
             assigned_vars(x, out)
     elif isinstance(node, list):
@@ -1663,7 +1828,7 @@ class Translator(object):
         if name == "Self":
             return self.self_ty
         name = FILE_TYPE_ALIASES.get(self.file, {}).get(name, name)
-        if name in self.w.newtypes or name in self.w.crate.enums:
+        if name in self.w.newtypes or name in self.w.crate.enums or name in STRUCT_MAP or name in ENUM_AS_BOOL:
             return name
         return None
 
@@ -1674,6 +1839,8 @@ class Translator(object):
             return None
         if k == "int":
             return e[1]
+        if k == "ref":
+            return self.static_value(e[1], depth + 1)
         if k == "unary" and e[1] == "-":
             v = self.static_value(e[2], depth + 1)
             return None if v is None else -v
@@ -1830,6 +1997,27 @@ class Translator(object):
             return A("true" if e[1] else "false"), "bool"
         if k == "float":
             return float_literal(e[1]), "f64"
+        if k == "ref":
+            return self.tr_expr(e[1], env, want)
+        if k == "structlit":
+            sty = self.resolve(("named", e[1]))
+            ftypes = self.w.struct_fields(e[1])
+            fields = []
+            for f, fe in e[2]:
+                if f not in ftypes:
+                    raise Unsupported("struct %s has no field `%s`" % (e[1], f))
+                n, t = self.tr_expr(fe, env, ftypes[f])
+                if not types_compatible(t, ftypes[f]):
+                    raise Unsupported("field `%s: %s` initialised with %s" % (f, type_str(ftypes[f]), type_str(t)))
+                fields.append((f, n))
+            base = None
+            if e[3] is not None:
+                base, bt = self.tr_expr(e[3], env, sty)
+                if bt != sty:
+                    raise Unsupported("functional update from %s" % type_str(bt))
+            elif set(f for f, _ in fields) != set(ftypes):
+                raise Unsupported("struct literal without all fields")
+            return ("struct", lean_type(sty), base, fields), sty
         if k == "path":
             return self.tr_path(e[1], env, want)
         if k == "unary":     # '-'
@@ -1875,6 +2063,8 @@ class Translator(object):
                 return ("proj", n, i, len(t[1])), t[1][i]
             if isinstance(t, tuple) and t[0] == "nt" and e[2] == "0":
                 return n, self.w.newtypes[t[1]]
+            if isinstance(t, tuple) and t[0] == "struct" and e[2] in self.w.struct_fields(t[1]):
+                return ("fld", n, e[2]), self.w.struct_fields(t[1])[e[2]]
             raise Unsupported("field `.%s` of %s" % (e[2], type_str(t)))
         if k == "index":
             n, t = self.tr_expr(e[1], env, None)
@@ -1970,6 +2160,11 @@ class Translator(object):
                 return F64_CONSTS[name], "f64"
             raise Unsupported("constant f64::%s" % name)
         tn = self.type_name(head)
+        if tn is not None and tn in ENUM_AS_BOOL:
+            self.resolve(("named", tn))
+            if name in ENUM_AS_BOOL[tn]:
+                return A(ENUM_AS_BOOL[tn][name]), ("boolenum", tn)
+            raise Unsupported("unknown variant %s::%s" % (head, name))
         if tn is not None and tn in w.crate.enums:
             if name in w.crate.enums[tn]:
                 return ("num", w.crate.enums[tn][name]), ("enum", tn)
@@ -2145,6 +2340,16 @@ class Translator(object):
             if ent is not None:
                 return self.call_entry(ent, [a])
             raise Unsupported("conversion `%s::from(%s)` is not whitelisted" % (tn, type_str(a[1])))
+        if name == "try_from" and recv is None and len(arg_exprs) == 1:
+            a = self.tr_expr(arg_exprs[0], env, None)
+            keys = ["TryFrom<%s> for %s" % (type_str(a[1]), tn)]
+            if arg_exprs[0][0] == "ref":
+                keys.insert(0, "TryFrom<&%s> for %s" % (type_str(a[1]), tn))
+            for key in keys:
+                ent = w.wl.get((key, "try_from"))
+                if ent is not None:
+                    return self.call_entry(ent, [a])
+            raise Unsupported("conversion `%s::try_from(%s)` is not whitelisted" % (tn, type_str(a[1])))
         if ent is not None:
             ptypes = [t for _, t in ent["params_t"]]
             if recv is not None:
@@ -2166,10 +2371,10 @@ class Translator(object):
             orig = item.impl.split(" for ")[-1].strip()
             p = item.params[0][0]
             idforms = ["%s(%s)" % (orig, p), "Self(%s)" % p]
-            inner = w.newtypes[tn]
+            inner = w.newtypes.get(tn)
             if isinstance(inner, tuple) and inner[0] == "nt":
                 idforms += ["%s(%s::%s(%s))" % (orig, inner[1], name, p), "Self(%s::%s(%s))" % (inner[1], name, p)]
-            if body in idforms:
+            if body in idforms and tn in w.newtypes:
                 n, t = self.tr_expr(arg_exprs[0], env, w.raw_int(("nt", tn)))
                 if not types_compatible(t, w.raw_int(("nt", tn))):
                     raise Unsupported("%s::%s applied to %s" % (tn, name, type_str(t)))
@@ -2182,7 +2387,7 @@ class Translator(object):
 
     def method_call(self, n, t, name, arg_exprs, env):
         w = self.w
-        if isinstance(t, tuple) and t[0] == "nt":
+        if isinstance(t, tuple) and t[0] in ("nt", "struct"):
             return self.assoc_call(t[1], name, (n, t), arg_exprs, env)
         if is_intlike(t):
             if t == "infer":
@@ -2250,7 +2455,7 @@ class Translator(object):
         for pn, ptoks in item.params:
             if pn is None:
                 raise Unsupported("inlining `%s`: pattern parameter" % item.name)
-            params.append((pn, ("nt", self_ty) if ptoks is None else sub.resolve(parse_type_toks(ptoks))))
+            params.append((pn, self_type(self_ty) if ptoks is None else sub.resolve(parse_type_toks(ptoks))))
         ptypes = [t for _, t in params]
         if recv is not None:
             args = [recv] + self.tr_args(arg_exprs, env, ptypes[1:])
@@ -2277,6 +2482,12 @@ class Translator(object):
             env[pn] = pt
         blk = parse_body(item.body)
         items = list(blk[1]) + ([("tail", blk[2])] if blk[2] is not None else [])
+        if getattr(item, "mut_self", False):
+            # `fn f(&mut self)`: the translation returns the new value of `self`
+            if contains_kind(blk, ("return",)):
+                raise Unsupported("`return` in a `&mut self` method")
+            node, t = self.seq(self.strip_unit_tail(items), env, "vars", ["self"], None)
+            return node, t
         node, t = self.seq(items, env, "tail", None, ret)
         if t == "never":
             t = ret
@@ -2408,6 +2619,22 @@ class Translator(object):
             return mk_let("%s : %s" % (lean_ident(name), lean_type(cty)), val, body, comment), bt
         if kind == "assign":
             _, op, lhs, rhs, _ = st
+            if lhs[0] == "field" and lhs[1][0] == "path" and len(lhs[1][1]) == 1 and lhs[1][1][0] in env \
+                    and isinstance(env[lhs[1][1][0]], tuple) and env[lhs[1][1][0]][0] == "struct":
+                # `v.f = e`  =  `v = V { f: e, ..v }`
+                name = lhs[1][1][0]
+                sty = env[name]
+                ftypes = self.w.struct_fields(sty[1])
+                if lhs[2] not in ftypes:
+                    raise Unsupported("line %d: struct %s has no field `%s`" % (line, sty[1], lhs[2]))
+                src = rhs if op == "=" else ("binary", op[:-1], lhs, rhs)
+                (val, vt), binds = self.with_tries(mode, lambda: self.tr_expr(src, env, ftypes[lhs[2]]))
+                if not types_compatible(vt, ftypes[lhs[2]]):
+                    raise Unsupported("line %d: assigning %s to field `%s : %s`" % (line, type_str(vt), lhs[2], type_str(ftypes[lhs[2]])))
+                newv = ("struct", lean_type(sty), A(lean_ident(name)), [(lhs[2], val)])
+                node, bt = self.bind_pattern(("pvar", name), newv, sty, env, comment,
+                                             lambda e2: self.seq(rest, e2, mode, rvars, want))
+                return self.wrap_tries(binds, node, bt)
             if not (lhs[0] == "path" and len(lhs[1]) == 1 and lhs[1][0] in env):
                 raise Unsupported("line %d: assignment to something that is not a local variable" % line)
             name = lhs[1][0]
@@ -2539,7 +2766,7 @@ class Translator(object):
             en, et = self.seq(ei, dict(env), "vars", mvars, None)
             val, vt = ("ite", cond, tn, en, None), tt
         else:
-            raise Unsupported("statement `match` that assigns variables")
+            (val, vt) = self.tr_match(e, env, None, "vars", [], None, mvars)
         if len(mvars) == 1:
             pat = ("pvar", mvars[0])
         else:
@@ -2590,12 +2817,14 @@ class Translator(object):
             tn, tt = self.branch_value(e[2], env, et, mode)
         return ("ite", cond, tn, en, None), join_types(tt, et, "if")
 
-    def tr_match(self, e, env, want, mode, rest, comment=None):
+    def tr_match(self, e, env, want, mode, rest, comment=None, rvars=None):
         """`match` as a value (mode 'value'/'tail'); `rest` = continuation statements (tail mode only)."""
         (sn, st), binds = self.with_tries(mode, lambda: self.tr_expr(e[1], env, None))
         arms = e[2]
 
         def arm_value(body, env2):
+            if mode == "vars":      # a statement `match` that assigns outer variables: value = those variables
+                return self.seq(self.strip_unit_tail(self.block_items(body)), dict(env2), "vars", rvars, None)
             if rest or mode == "tail":
                 items = self.strip_unit_tail(self.block_items(body)) + rest if rest else self.block_items(body)
                 return self.seq(items, dict(env2), "tail", None, want)
@@ -2636,7 +2865,7 @@ class Translator(object):
                 raise Unsupported("non-exhaustive match on %s" % type_str(st))
             return self.wrap_tries(binds, ("match", sn, out, comment), rt)
 
-        if st == "bool" or is_intlike(st) or (isinstance(st, tuple) and st[0] == "enum"):
+        if st == "bool" or is_intlike(st) or (isinstance(st, tuple) and st[0] in ("enum", "boolenum")):
             pre = None
             if sn[0] not in ("atom", "num"):
                 tmp = self.fresh("m")
@@ -2690,7 +2919,7 @@ class Translator(object):
                 chain.append((c, n))
             if final is None:
                 # exhaustive without a wildcard only for bool true/false
-                if st == "bool" and len(chain) == 2:
+                if (st == "bool" or (isinstance(st, tuple) and st[0] == "boolenum")) and len(chain) == 2:
                     final = chain.pop()[1]
                 else:
                     raise Unsupported("match without a final wildcard arm")
@@ -2751,8 +2980,10 @@ def safe_of(node, fn_names):
         return s_and(S(node[1]), m)
     if k in ("tuple", "list"):
         return s_and(*[S(x) for x in node[1]])
-    if k == "proj":
+    if k in ("proj", "fld"):
         return S(node[1])
+    if k == "struct":
+        return s_and(*([S(node[2])] if node[2] is not None else []) + [S(v) for _, v in node[3]])
     if k == "not":
         return S(node[1])
     if k == "imp":
@@ -2920,7 +3151,7 @@ def build_whitelist(world):
         params = []
         for part in split_params(pspec):
             if part == "self":
-                params.append(("self", ("nt", self_ty)))
+                params.append(("self", self_type(self_ty)))
             else:
                 n, t = part.split(":", 1)
                 params.append((n.strip(), parse_wl_type(world, t.strip())))
@@ -2981,7 +3212,7 @@ def translate_entry(world, ent):
         if ptoks is None:
             if ent["self_ty"] is None:
                 raise Unsupported("`self` in a free function")
-            params.append((pn, ("nt", ent["self_ty"])))
+            params.append((pn, self_type(ent["self_ty"])))
         else:
             params.append((pn, tr.resolve(parse_type_toks(ptoks))))
     want = ent["wl_params_t"]
@@ -2990,6 +3221,8 @@ def translate_entry(world, ent):
             ", ".join("%s: %s" % (n, type_str(t)) for n, t in params),
             ", ".join("%s: %s" % (n, type_str(t)) for n, t in want)))
     ret = tr.resolve(parse_type_toks(item.ret)) if item.ret else "unit"
+    if getattr(item, "mut_self", False) and ret == "unit":
+        ret = params[0][1]          # a `&mut self` method is translated as returning the new `self`
     if lean_type(ret) != lean_type(ent["wl_ret_t"]):
         raise Unsupported("return type changed: %s, whitelisted %s" % (type_str(ret), type_str(ent["wl_ret_t"])))
     node, t = tr.translate_body(item, params, ret)
@@ -3043,6 +3276,8 @@ def main(argv=None):
     ap.add_argument("--repo", default=os.environ.get("VERIF_REPO", "/repo"))
     ap.add_argument("--out-dir", default=os.path.join(here, "..", "lean", "SqlDt"))
     ap.add_argument("--verbose", "-v", action="store_true")
+    ap.add_argument("--force-stubs", action="store_true",
+                    help="testing aid: emit every whitelisted item as an UNTRANSLATED alias (the proof files must still build)")
     args = ap.parse_args(argv)
 
     crate = load_crate(args.repo)
@@ -3062,8 +3297,10 @@ def main(argv=None):
             continue
         try:
             tr0 = Translator(world, item.file, ent["self_ty"])
-            ps = [(pn, ("nt", ent["self_ty"]) if pt is None else tr0.resolve(parse_type_toks(pt))) for pn, pt in item.params]
+            ps = [(pn, self_type(ent["self_ty"]) if pt is None else tr0.resolve(parse_type_toks(pt))) for pn, pt in item.params]
             rt = tr0.resolve(parse_type_toks(item.ret)) if item.ret else "unit"
+            if getattr(item, "mut_self", False) and rt == "unit":
+                rt = ps[0][1]
             if len(ps) == len(ent["params_t"]) and lean_type(rt) == lean_type(ent["ret_t"]) and \
                     all(lean_type(a[1]) == lean_type(b[1]) for a, b in zip(ps, ent["params_t"])):
                 if [t for _, t in ps] != [t for _, t in ent["params_t"]] or rt != ent["ret_t"]:
@@ -3076,6 +3313,8 @@ def main(argv=None):
     results, status = {}, []
     for ent in entries:
         try:
+            if args.force_stubs:
+                raise Unsupported("forced by --force-stubs")
             results[ent["lean"]] = translate_entry(world, ent)
         except Unsupported as ex:
             results[ent["lean"]] = str(ex)
@@ -3147,9 +3386,10 @@ def main(argv=None):
         "import SqlDt.Generated",
         "import SqlDt.Model.Basic",
         "import SqlDt.Model.F64     -- the model's soft-float (core Lean, imports Model.Basic only)",
+        "import SqlDt.Model.Format  -- only for the structure `NDT` that `format::NaiveDateTime` is mapped onto",
     ]
     if stubs:
-        header.append("import SqlDt.Model.Types   -- only because of the UNTRANSLATED aliases below")
+        header.append("import SqlDt.Model.Parse   -- only because of the UNTRANSLATED aliases below")
     header += ["set_option linter.unusedVariables false", "namespace SqlDt.Tr", "open SqlDt SqlDt.Gen", PRELUDE]
     text = "\n".join(header) + "\n" + "\n\n".join(body) + "\n\nend SqlDt.Tr\n"
 
